@@ -763,6 +763,16 @@ Proof. exact RelLiveAllHistP.C11_full_fixed. Qed.
 Check C11_full_theorem : C11_full fixed.
 Print Assumptions C11_full_theorem.
 
+(* the hypothesis `structure t0 = Ok f0` of C11_full is needed and is exactly the domain: "a (> 1), b" is read without error but Relation::version() panics on its first relation (the reader accepts any run of < > = as an operator: C12's class c12-nonstandard-operator), so the field has no list-model reading; the edits themselves do not use the accessors and still work next to it *)
+Theorem C11_full_domain_witness : reads_clean [97; 32; 40; 62; 32; 49; 41; 44; 32; 98]%N = true /\
+  match parse_relaxed [97; 32; 40; 62; 32; 49; 41; 44; 32; 98]%N true with Ok (t, _) => structure t | _ => Err 0%N end = Panic 51%N /\
+  run_text fixed (IRelaxed [97; 32; 40; 62; 32; 49; 41; 44; 32; 98]%N) (compile (ASetVersion 1 0 (Some (VGe, [50]%N)))) = Ok [97; 32; 40; 62; 32; 49; 41; 44; 32; 98; 32; 40; 62; 61; 32; 50; 41]%N.
+Proof. exact nonstandard_operator_structure. Qed.
+Check C11_full_domain_witness : reads_clean [97; 32; 40; 62; 32; 49; 41; 44; 32; 98]%N = true /\
+  match parse_relaxed [97; 32; 40; 62; 32; 49; 41; 44; 32; 98]%N true with Ok (t, _) => structure t | _ => Err 0%N end = Panic 51%N /\
+  run_text fixed (IRelaxed [97; 32; 40; 62; 32; 49; 41; 44; 32; 98]%N) (compile (ASetVersion 1 0 (Some (VGe, [50]%N)))) = Ok [97; 32; 40; 62; 32; 49; 41; 44; 32; 98; 32; 40; 62; 61; 32; 50; 41]%N.
+Print Assumptions C11_full_domain_witness.
+
 (* the one correction of the STATEMENT: compile builds an operand record that has architectures or profiles but no qualifier with RelationBuilder (rel_spec); as first written it used Relation::new for every record without qualifier, which drops them *)
 Theorem C11_builder_operand_witness : 
   run_text fixed INew [ONewEntry 1 (ESFromVec [RSNew [97]%N None]); OPush 1] = Ok [97]%N /\
